@@ -81,6 +81,8 @@ type zzC03Pat struct {
 	N []string `json:"n"`
 	// Qt restricts the rule to one query type ($dnstype=Qt) unless empty.
 	Qt string `json:"qt"`
+	// Wl marks an exception rule ("@@...").
+	Wl bool `json:"wl"`
 }
 
 // zzC03Vec is one vector emitted by TLC: either the universe or one
@@ -805,6 +807,10 @@ func (c *zzC03Conc) pattern(p zzC03Pat) (s string) {
 
 	if p.Qt != "" {
 		s += "$dnstype=" + p.Qt
+	}
+
+	if p.Wl {
+		s = "@@" + s
 	}
 
 	return s
@@ -1657,6 +1663,10 @@ func zzC03Sig(level string, v *zzC03Vec, ar *zzC03AReq, want []string, got strin
 		if p.K == "re" && !strings.Contains(trig, "R") {
 			trig += "R"
 		}
+
+		if p.Wl && !strings.Contains(trig, "X") {
+			trig += "X"
+		}
 	}
 
 	if ar.ID == zzC03BadID {
@@ -2407,6 +2417,20 @@ func zzC03RandLists(rng *rand.Rand, w int) (v *zzC03Vec) {
 			}
 		}
 
+		if p.K == "domain" && rng.Intn(5) == 0 {
+			// An exception rule: often inside a name that a rule of the list
+			// blocks, sometimes with no blocking rule around it.
+			p.Wl = true
+			if len(v.Hosts) > 0 && rng.Intn(3) > 0 {
+				if q := v.Hosts[rng.Intn(len(v.Hosts))]; !q.Wl && len(q.N) > 0 && q.K != "re" {
+					p.N = append([]string{zzC03BLabels[rng.Intn(len(zzC03BLabels))]}, q.N...)
+					if q.K == "exact" || rng.Intn(3) == 0 {
+						p.N = append([]string{}, q.N...)
+					}
+				}
+			}
+		}
+
 		if rng.Intn(6) == 0 {
 			// A regular-expression rule.
 			p = zzC03Pat{K: "re", N: []string{[]string{"nondigit", "capital", "named"}[rng.Intn(3)]}}
@@ -2425,6 +2449,10 @@ func zzC03RandLists(rng *rand.Rand, w int) (v *zzC03Vec) {
 // shapes of the spec.
 func zzC03ParsePattern(str string) (p zzC03Pat) {
 	str = strings.ToLower(str)
+	if strings.HasPrefix(str, "@@") {
+		p.Wl, str = true, str[2:]
+	}
+
 	if i := strings.Index(str, "$dnstype="); i >= 0 {
 		p.Qt = strings.ToUpper(str[i+len("$dnstype="):])
 		str = str[:i]
